@@ -593,6 +593,7 @@ func c11(c *core.Check) {
 	r5 := c.Rule("R5", "no call passes two same-typed arguments under each other's parameter names (swapped arguments): every pair of arguments named after the callee's parameters is aligned with them", 30)
 	argNameRule(c, r5, "html/layout", map[string]bool{"inline.go": true, "leader.go": true}, 40)
 	argNameRule(c, r5, "text", nil, 5)
+	c11TextAlign(c)
 
 }
 
